@@ -72,10 +72,19 @@ def fanout(exe, seed, total, tier, outdir, budget_s, nworkers=None, extra=()):
     return lines, crashes
 
 
-def exec_prog(exe, path, timeout=600, extra=()):
-    """-> dict of the X line (without detail) or None"""
+VALGRIND = ["valgrind", "-q", "--error-exitcode=88"]
+
+
+def exec_prog(exe, path, timeout=600, extra=(), wrapper=None):
+    """-> dict of the X line (without detail) or None.  Programs marked `# runner=valgrind` are executed under memcheck."""
+    if wrapper is None:
+        try:
+            with open(path) as f:
+                wrapper = VALGRIND if "# runner=valgrind" in f.read(4000) else []
+        except OSError:
+            wrapper = []
     try:
-        p = subprocess.run([exe, "exec", path] + list(extra), stdout=subprocess.PIPE, stderr=subprocess.STDOUT, text=True, timeout=timeout)
+        p = subprocess.run(list(wrapper) + [exe, "exec", path] + list(extra), stdout=subprocess.PIPE, stderr=subprocess.STDOUT, text=True, timeout=timeout)
     except subprocess.TimeoutExpired:
         return dict(cls="TIMEOUT", raw="timeout")
     xs = [l for l in p.stdout.split("\n") if l.startswith("X ")]
@@ -86,6 +95,10 @@ def exec_prog(exe, path, timeout=600, extra=()):
     d["raw"] = xs[-1]
     d["rc"] = p.returncode
     d["out"] = p.stdout[-4000:]
+    if d["cls"] == "memcheck_error":
+        # first library frame of the first memcheck report
+        m = re.search(r"==\d+==\s+(?:at|by) 0x[0-9A-F]+: (\w+) \(((?!ops\.c|hist\.c|engutil\.c)[a-z_]+\.[ch]):", p.stdout)
+        d["func"] = re.sub(r"^(?:[a-z0-9]+_p?_?)(?=(?:_?mzd_|_?mzp_|m4ri_|djb_|ple_))", "", m.group(1)) if m else "-"
     return d
 
 
